@@ -23,7 +23,7 @@
   the harness through the driver op `smwpm decode … → pm=1`).
 
   STATED, NOT PROVED:
-  * the same for `RotatedToricSMWPMDecoder` (Model not written: periodic lattice, no virtual nodes, t-parities);
+  * (the rotated TORIC decoder is in Props/C02/SmwpmToric.lean);
   * existence of a perfect matching of the modelled symmetry graph for every reachable syndrome array (inside the
     stated noise domain the real decoder finds one on every run of the harness; outside it — e.g. non-Y errors at
     infinite bias — there is none and qecsim raises 'Cluster is not a closed loop');
